@@ -2,6 +2,7 @@ package props
 
 import (
 	"bytes"
+	"encoding/json"
 	"fmt"
 	"strings"
 	"testing"
@@ -173,6 +174,22 @@ func checkC08(c C08Case) Verdict {
 	digests := func() [4]uint64 {
 		return [4]uint64{deepDigest(cb.reg), deepDigest(dataSets), deepDigest(ij), deepDigest(msgs)}
 	}
+	hasPlural, hasMarks := false, strings.ContainsAny(strings.Join(srcs, ""), "«»")
+	for _, t := range cb.reg.Templates {
+		collectMsgs(t.Node, func(m *ast.MsgNode) {
+			for _, ch := range m.Body.Children() {
+				if _, isPl := ch.(*ast.MsgPluralNode); isPl {
+					hasPlural = true
+				}
+			}
+		})
+	}
+	for _, d := range c.Prog.AllData {
+		for _, v := range d {
+			b, _ := json.Marshal(v)
+			hasMarks = hasMarks || strings.ContainsAny(string(b), "«»")
+		}
+	}
 	d0 := digests()
 	type key struct {
 		op           string
@@ -180,6 +197,7 @@ func checkC08(c C08Case) Verdict {
 	}
 	first := map[key]string{}
 	refOut := map[int]ref.Result{}
+	renderers := map[string]*soyhtml.Renderer{}
 	config := 0
 	repeats := 0
 	var failure error
@@ -224,12 +242,18 @@ func checkC08(c C08Case) Verdict {
 					rerr = cb.tofu.Render(&buf, fqs[ti], dataSets[di])
 					return
 				}
-				rd := cb.tofu.NewRenderer(fqs[ti])
-				if c.Prog.HasIJ {
-					rd.Inject(ij)
-				}
-				if op.Op == "renderMsgs" {
-					rd.WithMessages(msgs)
+				// (a Renderer may be kept and executed again: one per template and kind is reused)
+				rk := fmt.Sprintf("%s/%d", op.Op, ti)
+				rd := renderers[rk]
+				if rd == nil || op.Via == 1 {
+					rd = cb.tofu.NewRenderer(fqs[ti])
+					if c.Prog.HasIJ {
+						rd.Inject(ij)
+					}
+					if op.Op == "renderMsgs" {
+						rd.WithMessages(msgs)
+					}
+					renderers[rk] = rd
 				}
 				rerr = rd.Execute(&buf, dataSets[di])
 			})
@@ -238,6 +262,19 @@ func checkC08(c C08Case) Verdict {
 				errText = "error" // the text quotes goroutine stacks for runtime errors: only the fact is compared
 			}
 			result = fmt.Sprintf("out=%q err=%s panic=%v", buf.String(), errText, p != nil)
+			// with the identity bundle (every message text wrapped in marks) the output is the plain output
+			// plus marks, whatever other messages were rendered before
+			if op.Op == "renderMsgs" && di == ti && len(c08Configs[config]) == 0 && p == nil && !hasPlural && !hasMarks {
+				want, cached := refOut[ti]
+				if !cached {
+					want = ref.Render(&c.Prog.Prog, fqs[ti], c.Prog.AllData[fqs[ti]], c.Prog.IJ, c.Prog.HasIJ)
+					refOut[ti] = want
+				}
+				stripped := strings.NewReplacer("«", "", "»", "").Replace(buf.String())
+				if want.Status == ref.OK && (rerr != nil || ref.CanonRefs(stripped) != ref.CanonRefs(want.Out)) {
+					failure = fmt.Errorf("step %d: render of %s with the identity message bundle gives %q (error %v); without the marks the language defines %q", i, fqs[ti], trunc(buf.String(), 400), rerr != nil, trunc(want.Out, 400))
+				}
+			}
 			// a render is a pure function of (template, data): it must also equal what the reference
 			// interpreter defines, whatever was rendered before (in this history or earlier in the process)
 			if op.Op == "render" && di == ti && len(c08Configs[config]) == 0 && p == nil {
